@@ -47,6 +47,7 @@ PBT_PROPERTY(zero_one) {
         }
         inputs += w.last - w.first;
     }
+    pbt::count(inputs); // zero-one inputs sorted by this chunk
     pbt::label("chunk");
     pbt::nontrivial();
     PBT_LOG("zero_one chunk " << idx << "/" << total << ": " << inputs << " zero-one inputs of " << items.size() << " work items\n");
